@@ -1,4 +1,5 @@
 use crate::errors::SwiftValidationError;
+use crate::fields::swift_utils::amounts_equal;
 use crate::fields::*;
 use crate::parser::utils::*;
 use serde::{Deserialize, Serialize};
@@ -815,7 +816,7 @@ impl MT104 {
                 let amount_33b = field_33b.amount;
 
                 // Check if both currency and amount are the same
-                if currency_32b == currency_33b && (amount_32b - amount_33b).abs() < 0.01 {
+                if currency_32b == currency_33b && amounts_equal(amount_32b, amount_33b) {
                     errors.push(SwiftValidationError::content_error(
                         "D21",
                         "33B",
@@ -903,9 +904,9 @@ impl MT104 {
         // Calculate sum of amounts in Sequence B
         let sum_of_amounts: f64 = self.transactions.iter().map(|tx| tx.field_32b.amount).sum();
 
-        let amounts_equal = (settlement_amount - sum_of_amounts).abs() < 0.01;
+        let equals_sum = amounts_equal(settlement_amount, sum_of_amounts);
 
-        if amounts_equal && self.field_19.is_some() {
+        if equals_sum && self.field_19.is_some() {
             return Some(SwiftValidationError::content_error(
                 "D80",
                 "19",
@@ -915,7 +916,7 @@ impl MT104 {
             ));
         }
 
-        if !amounts_equal && self.field_19.is_none() {
+        if !equals_sum && self.field_19.is_none() {
             return Some(SwiftValidationError::content_error(
                 "D80",
                 "19",
@@ -934,7 +935,7 @@ impl MT104 {
             // Calculate sum of amounts in Sequence B
             let sum_of_amounts: f64 = self.transactions.iter().map(|tx| tx.field_32b.amount).sum();
 
-            if (field_19.amount - sum_of_amounts).abs() > 0.01 {
+            if !amounts_equal(field_19.amount, sum_of_amounts) {
                 return Some(SwiftValidationError::content_error(
                     "C01",
                     "19",
